@@ -75,7 +75,11 @@ def gen_packages(run):
 WITNESS = {
     "K_rest_array_result": ("wa", [([], ("arr", "2", g.INT)), g.RESP, g.ERR], "cannot use nil as [2]int value"),
     "K_rest_multi_name_result": ("wm", [(["a", "b"], g.RESP[1]), (["err"], g.ERR[1])], "not enough return values"),
+    "K_rest_result_names_collide": ("wn", [(["resp_"], g.RESP[1]), (["err"], g.ERR[1])], "no new variables on left side"),
 }
+
+REDIRECT_FINDING = "K_rest_redirect_response_dropped"
+REDIRECT_STATUSES = [301, 302, 303, 307, 308]
 
 
 def fatal_of(r):
@@ -158,8 +162,44 @@ def witness_handler(run, mod, res, kid):
     return h
 
 
+def redirect_handler(run, drv, pkgs):
+    """K_rest_redirect_response_dropped: a redirect loop makes http.Client.Do return the last 3xx response
+    together with an error; the generated method returns (nil, nil, err)"""
+    def h(entry):
+        methods = [(p, i, m) for p in pkgs[:1] for i in p.ifaces for m in i.methods][:4]
+        if not methods:
+            return "other: no generated client to run the witness on"
+        obs = run_driver(drv, redirect_loop_cases(methods))
+        kinds = set()
+        for o in obs:
+            e = o["err"]
+            if o["panic"] or e is None or e["same"] != "do" or "redirects" not in e["text"] or not o["got_resp"]:
+                kinds.add("other: %s" % json.dumps({k: o[k] for k in ("resp", "err", "panic", "got_resp")})[:300])
+            elif o["resp"] == "nil":
+                kinds.add("buggy")
+            elif o["resp"] == "same":
+                kinds.add("correct")
+            else:
+                kinds.add("other: a different response was returned")
+        if len(kinds) == 1:
+            return kinds.pop()
+        return "other: mixed behaviour %s" % sorted(kinds)
+    return h
+
+
 # ------------------------------------------------------------------- cases
-def gen_cases(run, pkgs):
+def redirect_loop_cases(methods, start=0):
+    """Do returns the last 3xx response together with 'stopped after 10 redirects'"""
+    cases = []
+    for p, i, m in methods:
+        for s in REDIRECT_STATUSES:
+            cases.append({"i": start + len(cases), "iface": "%s.%s" % (p.name, i.name), "method": m.name, "mode": "fault",
+                          "status": s, "body": "", "body_fault": False, "fault": "redirect_loop", "via": 0,
+                          "_m": m, "_p": p, "_label": "redirect_loop"})
+    return cases
+
+
+def gen_cases(run, pkgs, with_redirect_loops=False):
     """list of dicts: the driver's Case fields plus bookkeeping (pkg, method object, body label)"""
     rng = run.rng
     cases = []
@@ -168,7 +208,7 @@ def gen_cases(run, pkgs):
     def add(p, i, m, **kw):
         c = {"i": len(cases), "iface": "%s.%s" % (p.name, i.name), "method": m.name, "mode": kw.pop("mode"),
              "status": kw.pop("status", 0), "body": kw.pop("body", ""), "body_fault": kw.pop("body_fault", False),
-             "fault": kw.pop("fault", ""), "_m": m, "_p": p, "_label": kw.pop("label", "")}
+             "fault": kw.pop("fault", ""), "via": kw.pop("via", 0), "_m": m, "_p": p, "_label": kw.pop("label", "")}
         cases.append(c)
 
     statuses = g.quick_statuses(rng)
@@ -201,6 +241,11 @@ def gen_cases(run, pkgs):
         for s in (600, 750, 999):                      # net/http servers may send up to 999
             label, b = rng.choice(main4)
             add(p, i, m, mode="srv", status=s, body=b, label=label)
+        # a redirect that http.Client follows: the answer is the final response
+        for via in (REDIRECT_STATUSES if full else rng.sample(REDIRECT_STATUSES, 2)):
+            label, b = rng.choice(main4)
+            add(p, i, m, mode="srv", status=rng.choice([200, 201, 404, 500, 302]), body=b, via=via,
+                label="redirected_" + label)
         # a read error after (part of) the body
         for s in (200, 201, 299, 300, 404, 500):
             label, b = rng.choice(bodies)
@@ -225,6 +270,9 @@ def gen_cases(run, pkgs):
         if base or (run.thorough() and rng.random() < 0.3):
             for s in (200, 500):
                 add(p, i, m, mode="fault", fault="bodytimeout", status=s, body=bodies[2][1], label="bodytimeout")
+    if with_redirect_loops:
+        # only once the finding K_rest_redirect_response_dropped no longer reproduces
+        cases += redirect_loop_cases(methods, start=len(cases))
     return cases
 
 
@@ -252,6 +300,8 @@ def classify_case(c, o):
     if c["mode"] in ("fab", "srv"):
         return ("resp",)
     f = c["fault"]
+    if f == "redirect_loop":
+        return ("both",)
     if f in PRE_STAGE:
         return ("fail", PRE_STAGE[f])
     if f in ("bodyhang", "bodytimeout") and o["got_resp"] and o["resp"] != "nil":
@@ -267,7 +317,11 @@ def coq_case(c, o, mname):
     m = c["_m"]
     dummy = coq_val("", False)
     zero = coq_val(o["zero"], o["zero_nil"]) if m.has_result() else dummy
-    if kind[0] == "fail":
+    if kind[0] == "both":
+        out = ("OBoth {| r_id := 1; r_status := (%d)%%Z; r_body := {| b_data := \"\"; b_fault := None |} |} 1"
+               % c["status"])
+        dec = "(%s, None)" % zero
+    elif kind[0] == "fail":
         out = "OFail %s 1" % kind[1]
         dec = "(%s, None)" % zero
     else:
@@ -361,7 +415,10 @@ def main(run):
     shoot, mod, drv, res, files, wit = setup(run, pkgs, rpkgs)
     run.log("generated %d packages (%d methods), %d refused signatures"
             % (len(pkgs), sum(len(p.methods()) for p in pkgs), len(rpkgs)))
-    outcome = run.replay_findings({k: witness_handler(run, mod, res, k) for k in WITNESS})
+    live = [p for p in pkgs if res[p.name]["rc"] == 0 and not res[p.name].get("build_errors")]
+    handlers = {k: witness_handler(run, mod, res, k) for k in WITNESS}
+    handlers[REDIRECT_FINDING] = redirect_handler(run, drv, live)
+    outcome = run.replay_findings(handlers)
 
     # ---- acceptance: which signatures get a client
     def obs_fatal(r):
@@ -405,27 +462,46 @@ def main(run):
                            "build_errors": res[p.name]["build_errors"][:20], "sources": g.render_go(p),
                            "pkg": {"name": p.name, "ifaces": [i.name for i in p.ifaces]},
                            "how": "cd %s && shoot rest -type=%s && go build ." % (p.name, ",".join(i.name for i in p.ifaces))})
-    live = [p for p in pkgs if res[p.name]["rc"] == 0 and not res[p.name].get("build_errors")]
+    # every signature of the refused/random stream that shoot accepted must at least compile
+    accepted_r = [(label, p) for label, p in rpkgs if res[p.name]["rc"] == 0]
+    n_compiled = 0
+    if accepted_r:
+        ok, errs = l2.go_build(mod, ["./" + p.name for _, p in accepted_r])
+        n_compiled = len(accepted_r)
+        for label, p in accepted_r:
+            e = errs.get("%s/%s" % (MODULE, p.name))
+            if e:
+                n_compiled -= 1
+                run.violation({"kind": "property-fails-on-implementation",
+                               "what": "shoot accepted this signature (exit 0) but the generated client does not compile",
+                               "correspondence": "L2:C10:go build of every accepted signature of the refused/random stream",
+                               "signature": p.ifaces[0].methods[0].decl(), "label": label, "build_errors": e[:20],
+                               "pkg": {"name": p.name, "ifaces": [i.name for i in p.ifaces]}, "sources": g.render_go(p),
+                               "how": "cd %s && shoot rest -type=R && go build ." % p.name})
 
     # ---- behaviour of the generated methods
-    cases = gen_cases(run, live)
+    cases = gen_cases(run, live, with_redirect_loops=(outcome.get(REDIRECT_FINDING) == "correct"))
     run.log("cases:", len(cases))
     obs = run_driver(drv, cases)
     run.log("driver done")
     mism, _ = coq_shards(run, "c10cases", cases, obs)
     run.log("coq done: %d mismatches" % len(mism))
-    # timing-dependent scenarios: re-run a mismatching case alone before believing it
-    confirmed = []
-    for idx, v in mism[:12]:
-        c, o = cases[idx], obs[idx]
-        if c["mode"] == "fault" and c["fault"] in TIMED_FAULTS + ["bodyhang", "bodytimeout"]:
-            c2 = dict(c)
-            o2 = run_driver(drv, [c2])[0]
-            m2, _ = coq_shards(run, "c10re_%d" % idx, [c2], [o2])
-            if not m2:
-                continue
-            o, v = o2, m2[0][1]
-        confirmed.append((idx, v, o))
+    # timing-dependent scenarios are re-run alone before they are believed; every other mismatch counts as it is
+    def timed(c):
+        return c["mode"] == "fault" and c["fault"] in TIMED_FAULTS + ["bodyhang", "bodytimeout"]
+    confirmed = [(idx, v, obs[idx]) for idx, v in mism if not timed(cases[idx])]
+    timed_mism = [(idx, v) for idx, v in mism if timed(cases[idx])]
+    discarded = 0
+    for idx, v in timed_mism[:40]:
+        c2 = dict(cases[idx])
+        o2 = run_driver(drv, [c2])[0]
+        m2, _ = coq_shards(run, "c10re_%d" % idx, [c2], [o2])
+        if not m2:
+            discarded += 1
+            continue
+        confirmed.append((idx, m2[0][1], o2))
+    for idx, v in timed_mism[40:]:
+        confirmed.append((idx, v, obs[idx]))      # too many to re-run: reported as they are
     for idx, v, o in confirmed[:5]:
         c = cases[idx]
         p = c["_p"]
@@ -471,7 +547,8 @@ def main(run):
         "distinct_nontrivial": len(nontrivial),
         "rule": ("per generated method (%d methods in %d packages; result shapes: none, *T, []T, map[K]V over structs, "
                  "scalars, any, nested slices/maps/pointers, time.Time, anonymous structs): %s statuses in 200..599 x "
-                 "bodies {empty, valid JSON of the result type, malformed, wrong-typed} alternating between a real "
+                 "bodies {empty, valid JSON of the result type, malformed, wrong-typed (for *any / *interface{} no JSON is "
+                 "wrong-typed: the measured decode class decides)} alternating between a real "
                  "httptest round trip and a fabricated *http.Response; body variants (null, whitespace, valid+trailing "
                  "text, quoted/UTF-8 text) on the boundary statuses; %d statuses outside 200..599 incl. negatives and "
                  "int64 extremes (fabricated) and 600/750/999 (real server); read errors after part of the body; "
@@ -494,6 +571,9 @@ def main(run):
         "faults": faults,
         "refused_signatures": {label: (fatal_of(res[p.name]) or "generated") for label, p in rpkgs},
         "findings_measured": outcome,
+        "mismatches": {"raw": len(mism), "timed_rerun": min(len(timed_mism), 40), "timed_not_reproduced": discarded,
+                       "reported": min(len(confirmed), 5), "confirmed": len(confirmed)},
+        "accepted_signatures_of_the_refused_stream_compiled": n_compiled,
         "samples": [{"case": pub(cases[i]), "signature": cases[i]["_m"].decl().strip(), "observed": obs[i]}
                     for i in sample_idx],
         "trusted_base": lib.TRUSTED_BASE_COMMON + [
@@ -502,9 +582,10 @@ def main(run):
             "independently of the generated code; the one law used (empty stream -> io.EOF, variable untouched) is "
             "checked on every measurement (verdict 3)",
             "net/http is not modelled: a case starts from what http.Client.Do returned (a response with status and "
-            "body, or an error); that 204/304 carry no body, that 3xx without Location are returned as they are and "
-            "that final statuses below 200 cannot arrive over HTTP/1.1 are facts of net/http (statuses outside "
-            "200..999 are exercised with fabricated responses through the middleware chain)",
+            "body, an error, or both: a failed redirect chain); that 204/304 carry no body, that 3xx without Location "
+            "are returned as they are, that a 3xx with Location is followed (both exercised) and that final statuses "
+            "below 200 cannot arrive over HTTP/1.1 are facts of net/http (statuses outside 200..999 are exercised with "
+            "fabricated responses through the middleware chain)",
             "'unchanged' for an error of another package is observed as: *url.Error whose Err is the transport's own "
             "sentinel (identity), or equality of dynamic type and text with the error a hand-written reference call "
             "(same http.Client, same URL and context conditions) returns; the optional ' (Client.Timeout exceeded ...)' "
@@ -512,18 +593,22 @@ def main(run):
             "results are compared as canonical JSON (json.Marshal) plus nil-ness; the returned *http.Response by "
             "pointer identity with the one the innermost transport produced",
             "fmt's %d is modelled by dec (proved to round-trip); the template text is given its meaning by hand "
-            "(run_tail); go/ast and go/printer enter through the rendering of the declared result list as a list of "
-            "fields (names, type expression)",
+            "(emit: the rendered statements, exec: what they do); go/ast and go/printer enter through the rendering of "
+            "the declared result list as a list of fields (names, type expression)",
         ],
     }
     return run.finish(cov, assumptions=[
-        "wf_results: identifiers in result types are non-empty (true of every parsed file)",
-        "single_names (arity theorem only): no result field declares two names; the excluded class is the open finding "
-        "K_rest_multi_name_result",
-        "no_array_result (nil-ability theorem only): the declared result is not an array [n]T; the excluded class is the "
-        "open finding K_rest_array_result; both classes are kept out of the comparison stream and replayed every run",
-        "the law of encoding/json on an empty stream (hypothesis of C10_empty_body_gives_zero_value) is validated on "
-        "every measured case",
+        "wf_results: identifiers in result types are non-empty (true of every parsed file); no other guard on the signature "
+        "(K_rest_array_result, K_rest_multi_name_result, K_rest_result_names_collide are fixed in /repo; their input "
+        "classes are inside the comparison stream and their witnesses are replayed)",
+        "no_both: C10_method_refines_spec and the oracle theorems exclude the scenario 'Do returns a response together "
+        "with an error' (a failed redirect chain): there the code drops the response (open finding "
+        "K_rest_redirect_response_dropped, golden-locked); the class is replayed every run and enters the comparison "
+        "stream as soon as it no longer reproduces",
+        "encoding/json is a parameter: 'an empty body decodes to the zero value via io.EOF' and 'malformed / wrong-typed "
+        "bodies are errors' are MEASURED per case (law_ok, verdict 3), not proved; the theorems are conditional on json's answer",
+        "statuses of 600 and above are reported as server errors by the code (>= 500) although the property text counts "
+        "them among 'any other status'; outside the property's quantifier (200..599), stated as its own theorem",
     ])
 
 
